@@ -38,7 +38,14 @@ class Quant:
         while r[0] == "not":
             neg = -neg
             r = r[1]
-        if r == self.root:
+        mine = self.root
+        if r[0] == "bin" and r[1] == "Ne":
+            r = ("bin", "Eq") + tuple(r[2:])
+            neg = -neg
+        if mine[0] == "bin" and mine[1] == "Ne":
+            mine = ("bin", "Eq") + tuple(mine[2:])
+            neg = -neg
+        if r == mine:
             return neg
         return 0
 
